@@ -540,7 +540,7 @@ def processTx (K : Keys) (minFee : Nat) (s : State) (t : Tx) (fl : Flags) : Nat 
 
 /-- txAccepted: re-submit everything that waited for `bidx`, transitively -/
 def txAcceptedAux (K : Keys) (minFee : Nat) : Nat → State → List Nat → Nat → State
-  | 0, s, _, _ => s
+  | 0, s, _, _ => { s with panicked := true }   -- the model's iteration budget ran out (the Go loop has none): NOT the code
   | fuel + 1, s, recs, delidx =>
     match recs[delidx]? with
     | none => s
@@ -571,8 +571,17 @@ def txAcceptedAux (K : Keys) (minFee : Nat) : Nat → State → List Nat → Nat
                 else s
               txAcceptedAux K minFee fuel s recs delidx
 
+/-- iteration budget of the txAccepted loop (the Go loop is unbounded). One iteration either moves `delidx` on (at most
+    once per entry of `recs`: the start key and every record accepted meanwhile, i.e. ≤ 1 + |rej|) or re-submits one
+    data-carrying rejected record that waits for the current key — a record is re-submitted at most once per parent it
+    waits for, i.e. at most once per input. The sum below is at least that count; it is NOT proved sufficient in general:
+    running out of it raises `panicked` (first branch of `txAcceptedAux`), so every theorem with the hypothesis `alive`
+    speaks only about runs in which it sufficed, and the harness sees the flag as a mismatch with the real code. -/
+def txAccFuel (s : State) : Nat :=
+  s.rej.foldl (fun n p => n + 2 + (match p.2.tx with | some t => t.ins.length | none => 0)) (s.pool.length + 4)
+
 def txAccepted (K : Keys) (minFee : Nat) (s : State) (b : Nat) : State :=
-  txAcceptedAux K minFee (2 * (s.rej.length + s.pool.length) + 4) s [b] 0
+  txAcceptedAux K minFee (txAccFuel s) s [b] 0
 
 /-! ### entry points as the client drives them -/
 
@@ -592,11 +601,18 @@ def submitNet (K : Keys) (minFee : Nat) (s : State) (t : Tx) (trusted : Bool) : 
     let (res, s) := processTx K minFee s t { trusted }
     if res = 0 then (0, txAccepted K minFee s (K.bidx t.id)) else (res, s)
 
+/-- usif.LoadRawTx on a transaction NeedThisTxExt does not want: a pooled record under its BIDX becomes `Local`
+    ("make as own (if not needed)"); nothing else changes -/
+def markLocal (K : Keys) (s : State) (id : TxId) : State :=
+  match s.pool.get? (K.bidx id) with
+  | some r => { s with pool := s.pool.set (K.bidx id) { r with loc := true } }
+  | none => s
+
 /-- usif.LoadRawTx + SubmitLocalTx -/
 def submitLocal (K : Keys) (minFee : Nat) (s : State) (t : Tx) : Nat × State :=
   let s := rejDeleteByIdx K s (K.bidx t.id)
   let why := needThisTx K s t.id
-  if why ≠ 0 then (1000 + why, s)
+  if why ≠ 0 then (1000 + why, markLocal K s t.id)
   else
     let (res, s) := processTx K minFee s t { trusted := true, loc := true }
     if res = 0 then (0, txAccepted K minFee s (K.bidx t.id)) else (res, s)
